@@ -47,6 +47,7 @@ package ggql
 //@   check panic {C03}
 //@   requires root != nil && root.types != nil && root.dirs != nil
 //@   requires[finite-input] #rd <= #N
+//@   requires[ghost-counters-nonnegative] resolvedNonNeg()
 //@   results err
 //@   ensures[restore-types] err != nil ==> root.types == old(root.types)
 //@   ensures[restore-dirs] err != nil ==> root.dirs == old(root.dirs)
